@@ -64,11 +64,16 @@ fn op_cost(line: &str, args: &[SExp]) -> CaseResult {
         oracle = Some(format!("parsing {} bytes of family `{}` made {} allocator calls ({:.2} per input byte; ceiling 2.5)", m.len, kind, m.calls, calls_per_byte));
     } else if m.secs > 20.0 {
         oracle = Some(format!("parsing {} bytes of family `{}` took {:.1} s", m.len, kind, m.secs));
+    } else if m.secs > 0.25 && m.secs * 1e6 > 2.0 * m.len as f64 + 150_000.0 {
+        // more than 2 microseconds per input byte (plus slack): the unchanged parser needs about 0.02
+        oracle = Some(format!("parsing {} bytes of family `{}` took {:.0} ms ({:.1} microseconds per input byte)", m.len, kind, m.secs * 1e3, m.secs * 1e6 / m.len as f64));
     } else if n >= 512 {
         // doubling: the cost at n must not exceed 2.5 x the cost at n/2 (plus slack)
         if let Some(half) = crate::malformed::family(&kind, n / 2) {
             let h = measure(&half);
-            if m.bytes as f64 > 2.5 * h.bytes as f64 + 65536.0 {
+            if m.secs > 0.2 && m.secs > 5.0 * h.secs + 0.1 {
+                oracle = Some(format!("family `{}`: {:.0} ms for {} input bytes but {:.0} ms for {} (time grows {:.1}x on doubling)", kind, m.secs * 1e3, m.len, h.secs * 1e3, h.len, m.secs / h.secs.max(1e-9)));
+            } else if m.bytes as f64 > 2.5 * h.bytes as f64 + 65536.0 {
                 oracle = Some(format!("family `{}`: {} bytes allocated for {} input bytes but {} for {} (growth factor {:.1} on doubling)", kind, m.bytes, m.len, h.bytes, h.len, m.bytes as f64 / h.bytes.max(1) as f64));
             }
         }
